@@ -4,7 +4,8 @@ LEVEL = 'other'
 TARGETS = ['selfies/utils/smiles_utils.py::smiles_to_bond',
            'selfies/utils/smiles_utils.py::bond_to_smiles',
            'selfies/encoder.py::_bond_to_selfies',
-           'selfies/encoder.py::_ring_bonds_to_selfies']
+           'selfies/encoder.py::_ring_bonds_to_selfies',
+           'selfies/grammar_rules.py::process_ring_symbol']
 EXPLANATION = ("BOUNDED stand-in (runtime property contract on encoder/decoder, not counted as proved): for every chiral atom the handedness computed by the independent reader from the written neighbour order (preceding atom, implicit H, ring-closure positions, branches) is the same in the input and in decoder(encoder(input)); every '/' or '\\\\' mark is found again on the same bond with the same direction, including marks on ring closures; over hand-written centre configurations and all stereo-bearing corpus molecules with re-spellings. Deductive clauses on _should_invert_chirality are listed in coverage.clauses when discharged.")
 
 
